@@ -1,0 +1,400 @@
+// Verification shim, compiled only with `--cfg yamaquasi_verif_loom`.
+//
+// It stands in for the parts of `rayon` and `std::sync` used by this crate so
+// that the unmodified bodies of siqs(), mpqs(), qsieve(), ecm(), classgroup()
+// and factor() can run inside `loom::model`: every worker is a loom thread,
+// every lock and atomic is a loom object. Work items of a parallel iterator
+// are handed out through one shared cursor, so loom explores every
+// assignment of items to workers.
+
+#![allow(dead_code)]
+
+use std::ops::{Deref, DerefMut, Range};
+
+use loom::sync::atomic::{AtomicUsize, Ordering};
+
+/// Stack size of worker threads (loom's default coroutine stack cannot hold a
+/// sieve block).
+const WORKER_STACK: usize = 4 << 20;
+
+static POOL_THREADS: std::sync::atomic::AtomicUsize = std::sync::atomic::AtomicUsize::new(1);
+/// Upper bound on the number of items a parallel *range* iterator hands out
+/// (0 = unlimited); set by the harness for loops like MPQS' `0..100_000`.
+static RANGE_HORIZON: std::sync::atomic::AtomicUsize = std::sync::atomic::AtomicUsize::new(0);
+/// How parallel iterators order their items: 0 = in order, 1 = reversed,
+/// k >= 2 = rotated by k-1.
+static ITEM_ORDER: std::sync::atomic::AtomicUsize = std::sync::atomic::AtomicUsize::new(0);
+/// Number of nested same-thread read locks observed (see RwLock below).
+pub static NESTED_READS: std::sync::atomic::AtomicUsize = std::sync::atomic::AtomicUsize::new(0);
+/// Number of items claimed from range iterators / whether a horizon cut a range short.
+pub static HORIZON_CUTS: std::sync::atomic::AtomicUsize = std::sync::atomic::AtomicUsize::new(0);
+
+pub fn set_range_horizon(h: usize) {
+    RANGE_HORIZON.store(h, std::sync::atomic::Ordering::SeqCst);
+}
+
+pub fn set_item_order(o: usize) {
+    ITEM_ORDER.store(o, std::sync::atomic::Ordering::SeqCst);
+}
+
+// ------------------------------------------------------------------ sync
+
+pub mod sync {
+    pub use super::RwLock;
+    pub use loom::sync::atomic;
+}
+
+/// `loom::sync::RwLock` with one extension: a nested `read()` by the thread
+/// that already holds a read guard is a counted no-op (std allows it as long
+/// as no writer is queued; loom's model rejects it).
+pub struct RwLock<T> {
+    inner: loom::sync::RwLock<T>,
+    // (thread, depth, pointer to the protected data) of current readers
+    readers: std::sync::Mutex<Vec<(loom::thread::ThreadId, usize, usize)>>,
+}
+
+pub enum RwLockReadGuard<'a, T> {
+    Outer(loom::sync::RwLockReadGuard<'a, T>, &'a RwLock<T>),
+    Nested(*const T, &'a RwLock<T>),
+}
+
+pub struct RwLockWriteGuard<'a, T>(loom::sync::RwLockWriteGuard<'a, T>);
+
+impl<T> RwLock<T> {
+    pub fn new(t: T) -> Self {
+        RwLock {
+            inner: loom::sync::RwLock::new(t),
+            readers: std::sync::Mutex::new(vec![]),
+        }
+    }
+
+    pub fn read(&self) -> std::sync::LockResult<RwLockReadGuard<'_, T>> {
+        let me = loom::thread::current().id();
+        {
+            let mut rd = self.readers.lock().unwrap();
+            if let Some(e) = rd.iter_mut().find(|e| e.0 == me) {
+                e.1 += 1;
+                NESTED_READS.fetch_add(1, std::sync::atomic::Ordering::SeqCst);
+                return Ok(RwLockReadGuard::Nested(e.2 as *const T, self));
+            }
+        }
+        let g = self.inner.read().unwrap();
+        let ptr = &*g as *const T as usize;
+        self.readers.lock().unwrap().push((me, 1, ptr));
+        Ok(RwLockReadGuard::Outer(g, self))
+    }
+
+    pub fn write(&self) -> std::sync::LockResult<RwLockWriteGuard<'_, T>> {
+        let me = loom::thread::current().id();
+        assert!(
+            !self.readers.lock().unwrap().iter().any(|e| e.0 == me),
+            "write() while holding a read guard on the same thread: self-deadlock"
+        );
+        Ok(RwLockWriteGuard(self.inner.write().unwrap()))
+    }
+
+    pub fn into_inner(self) -> std::sync::LockResult<T> {
+        Ok(self.inner.into_inner().unwrap())
+    }
+}
+
+impl<T> Drop for RwLockReadGuard<'_, T> {
+    fn drop(&mut self) {
+        let me = loom::thread::current().id();
+        let lock = match self {
+            RwLockReadGuard::Outer(_, l) => *l,
+            RwLockReadGuard::Nested(_, l) => *l,
+        };
+        let mut rd = lock.readers.lock().unwrap();
+        let pos = rd.iter().position(|e| e.0 == me).expect("reader entry");
+        rd[pos].1 -= 1;
+        if let RwLockReadGuard::Outer(..) = self {
+            assert!(rd[pos].1 == 0, "outer read guard dropped before a nested one");
+        }
+        if rd[pos].1 == 0 {
+            rd.remove(pos);
+        }
+    }
+}
+
+impl<T> Deref for RwLockReadGuard<'_, T> {
+    type Target = T;
+    fn deref(&self) -> &T {
+        match self {
+            RwLockReadGuard::Outer(g, _) => g,
+            RwLockReadGuard::Nested(p, _) => unsafe { &**p },
+        }
+    }
+}
+
+impl<T> Deref for RwLockWriteGuard<'_, T> {
+    type Target = T;
+    fn deref(&self) -> &T {
+        &self.0
+    }
+}
+
+impl<T> DerefMut for RwLockWriteGuard<'_, T> {
+    fn deref_mut(&mut self) -> &mut T {
+        &mut self.0
+    }
+}
+
+// ------------------------------------------------------------------ pool
+
+#[derive(Debug)]
+pub struct ThreadPoolBuildError;
+
+impl std::fmt::Display for ThreadPoolBuildError {
+    fn fmt(&self, f: &mut std::fmt::Formatter<'_>) -> std::fmt::Result {
+        write!(f, "ThreadPoolBuildError")
+    }
+}
+
+pub struct ThreadPoolBuilder {
+    n: usize,
+}
+
+pub struct ThreadPool {
+    n: usize,
+}
+
+impl ThreadPoolBuilder {
+    pub fn new() -> Self {
+        ThreadPoolBuilder { n: 1 }
+    }
+    pub fn num_threads(mut self, n: usize) -> Self {
+        self.n = n.max(1);
+        self
+    }
+    pub fn build(self) -> Result<ThreadPool, ThreadPoolBuildError> {
+        Ok(ThreadPool { n: self.n })
+    }
+}
+
+impl ThreadPool {
+    pub fn install<R, F: FnOnce() -> R>(&self, f: F) -> R {
+        let prev = POOL_THREADS.swap(self.n, std::sync::atomic::Ordering::SeqCst);
+        let r = f();
+        POOL_THREADS.store(prev, std::sync::atomic::Ordering::SeqCst);
+        r
+    }
+    pub fn current_num_threads(&self) -> usize {
+        self.n
+    }
+}
+
+fn workers() -> usize {
+    POOL_THREADS.load(std::sync::atomic::Ordering::SeqCst)
+}
+
+/// Spawn a loom thread running a closure that borrows from the caller's stack.
+/// Every handle is joined before the borrowed data goes out of scope
+/// (scoped-thread discipline; loom has no thread::scope).
+unsafe fn spawn_erased<'a>(f: Box<dyn FnOnce() + Send + 'a>) -> loom::thread::JoinHandle<()> {
+    let f: Box<dyn FnOnce() + Send + 'static> = std::mem::transmute(f);
+    loom::thread::Builder::new()
+        .stack_size(WORKER_STACK)
+        .spawn(f)
+        .expect("spawn loom worker")
+}
+
+pub fn join<A, B, RA, RB>(a: A, b: B) -> (RA, RB)
+where
+    A: FnOnce() -> RA + Send,
+    B: FnOnce() -> RB + Send,
+    RA: Send,
+    RB: Send,
+{
+    if workers() < 2 {
+        let ra = a();
+        let rb = b();
+        return (ra, rb);
+    }
+    let mut rb: Option<RB> = None;
+    let ra;
+    {
+        let rbref = &mut rb;
+        let h = unsafe { spawn_erased(Box::new(move || *rbref = Some(b()))) };
+        ra = a();
+        h.join().expect("worker panicked");
+    }
+    (ra, rb.unwrap())
+}
+
+/// Run `f(i)` for every i in 0..len on `workers()` threads (the calling
+/// thread is one of them); items are claimed through a shared cursor.
+fn run_indexed<F: Fn(usize) + Sync>(len: usize, f: F) {
+    let order = ITEM_ORDER.load(std::sync::atomic::Ordering::SeqCst);
+    let map = move |i: usize| -> usize {
+        match order {
+            0 => i,
+            1 => len - 1 - i,
+            k => (i + k - 1) % len,
+        }
+    };
+    let nw = workers().min(len.max(1));
+    if nw < 2 {
+        for i in 0..len {
+            f(map(i));
+        }
+        return;
+    }
+    let cursor = AtomicUsize::new(0);
+    let work = || loop {
+        let i = cursor.fetch_add(1, Ordering::SeqCst);
+        if i >= len {
+            break;
+        }
+        f(map(i));
+    };
+    let mut handles = vec![];
+    for _ in 1..nw {
+        let w = &work;
+        handles.push(unsafe { spawn_erased(Box::new(move || w())) });
+    }
+    work();
+    for h in handles {
+        h.join().expect("worker panicked");
+    }
+}
+
+pub struct ParSlice<'a, T> {
+    items: &'a [T],
+}
+
+pub struct ParMap<'a, T, F> {
+    items: &'a [T],
+    f: F,
+}
+
+impl<'a, T: Sync> ParSlice<'a, T> {
+    pub fn for_each<F: Fn(&'a T) + Sync + Send>(self, f: F) {
+        let items = self.items;
+        run_indexed(items.len(), |i| f(&items[i]));
+    }
+    pub fn map<R, F: Fn(&'a T) -> R + Sync + Send>(self, f: F) -> ParMap<'a, T, F> {
+        ParMap {
+            items: self.items,
+            f,
+        }
+    }
+}
+
+impl<'a, T: Sync, R: Send, F: Fn(&'a T) -> R + Sync + Send> ParMap<'a, T, F> {
+    pub fn collect<C: FromIterator<R>>(self) -> C {
+        let items = self.items;
+        let slots: Vec<std::sync::Mutex<Option<R>>> =
+            (0..items.len()).map(|_| std::sync::Mutex::new(None)).collect();
+        let f = &self.f;
+        run_indexed(items.len(), |i| {
+            let r = f(&items[i]);
+            *slots[i].lock().unwrap() = Some(r);
+        });
+        slots
+            .into_iter()
+            .map(|s| s.into_inner().unwrap().expect("item not computed"))
+            .collect()
+    }
+}
+
+pub struct ParRange<I> {
+    start: I,
+    len: usize,
+}
+
+pub struct ParChunks<'a, T> {
+    items: &'a [T],
+    size: usize,
+}
+
+impl<'a, T: Sync> ParChunks<'a, T> {
+    pub fn for_each<F: Fn(&'a [T]) + Sync + Send>(self, f: F) {
+        let items = self.items;
+        let size = self.size;
+        run_indexed(items.len() / size, |i| f(&items[i * size..(i + 1) * size]));
+    }
+}
+
+pub mod prelude {
+    pub use super::{IntoParallelIterator, IntoParallelRefIterator, ParallelSlice};
+}
+
+pub trait IntoParallelRefIterator<'a> {
+    type Item: 'a;
+    fn par_iter(&'a self) -> ParSlice<'a, Self::Item>;
+}
+
+impl<'a, T: 'a + Sync> IntoParallelRefIterator<'a> for Vec<T> {
+    type Item = T;
+    fn par_iter(&'a self) -> ParSlice<'a, T> {
+        ParSlice { items: &self[..] }
+    }
+}
+
+impl<'a, T: 'a + Sync> IntoParallelRefIterator<'a> for [T] {
+    type Item = T;
+    fn par_iter(&'a self) -> ParSlice<'a, T> {
+        ParSlice { items: self }
+    }
+}
+
+pub trait ParallelSlice<T> {
+    fn par_chunks_exact(&self, size: usize) -> ParChunks<'_, T>;
+}
+
+impl<T: Sync> ParallelSlice<T> for [T] {
+    fn par_chunks_exact(&self, size: usize) -> ParChunks<'_, T> {
+        ParChunks { items: self, size }
+    }
+}
+
+pub trait IntoParallelIterator {
+    type Iter;
+    fn into_par_iter(self) -> Self::Iter;
+}
+
+/// Integer types usable as parallel range bounds (one generic impl, so that
+/// an unsuffixed literal range falls back to i32 as it does with rayon).
+pub trait RangeInt: Copy + Send + Sync + PartialOrd {
+    fn span(start: Self, end: Self) -> usize;
+    fn offset(self, i: usize) -> Self;
+}
+
+macro_rules! range_int {
+    ($($t:ty),*) => {$(
+        impl RangeInt for $t {
+            fn span(start: $t, end: $t) -> usize {
+                if end > start { (end - start) as usize } else { 0 }
+            }
+            fn offset(self, i: usize) -> $t {
+                self + i as $t
+            }
+        }
+    )*};
+}
+
+range_int!(i32, u32, i64, u64, usize);
+
+impl<T: RangeInt> IntoParallelIterator for Range<T> {
+    type Iter = ParRange<T>;
+    fn into_par_iter(self) -> ParRange<T> {
+        let mut len = T::span(self.start, self.end);
+        let h = RANGE_HORIZON.load(std::sync::atomic::Ordering::SeqCst);
+        if h > 0 && len > h {
+            len = h;
+            HORIZON_CUTS.fetch_add(1, std::sync::atomic::Ordering::SeqCst);
+        }
+        ParRange {
+            start: self.start,
+            len,
+        }
+    }
+}
+
+impl<T: RangeInt> ParRange<T> {
+    pub fn for_each<F: Fn(T) + Sync + Send>(self, f: F) {
+        let start = self.start;
+        run_indexed(self.len, |i| f(start.offset(i)));
+    }
+}
